@@ -125,6 +125,54 @@ fn let_variant(text: &str, st: &FxHashMap<String, ExprRef>, salt: usize) -> Opti
     Some((format!("(let (({name} {sub})) {}{name}{})", &text[..lo], &text[hi..]), is_shadow))
 }
 
+/// `T[S := (let ((n S)) n)]` where n is a declared symbol that occurs again *after* S: once the
+/// inner let is closed, n must denote the declared symbol again.
+fn scoped_let_variant(text: &str, st: &FxHashMap<String, ExprRef>, salt: usize) -> Option<String> {
+    let b = text.as_bytes();
+    let mut cands: Vec<(usize, usize)> = vec![];
+    for i in 1..b.len() {
+        if b[i] == b'(' && b[i - 1].is_ascii_whitespace() {
+            let head = text[i + 1..].split(|c: char| c.is_whitespace() || c == '(' || c == ')').next().unwrap_or("");
+            if head.is_empty() || head == "_" || head == "as" || head == "Array" {
+                continue;
+            }
+            let mut depth = 0;
+            let mut in_bar = false;
+            for (j, c) in b[i..].iter().enumerate() {
+                match c {
+                    b'|' => in_bar = !in_bar,
+                    b'(' if !in_bar => depth += 1,
+                    b')' if !in_bar => {
+                        depth -= 1;
+                        if depth == 0 {
+                            cands.push((i, i + j + 1));
+                            break;
+                        }
+                    }
+                    _ => {}
+                }
+            }
+        }
+    }
+    let toks = |s: &str| -> Vec<String> { s.split(|c: char| c.is_whitespace() || c == '(' || c == ')').map(|x| x.to_string()).collect() };
+    let mut names: Vec<&String> = st.keys().filter(|n| !n.contains(' ') && !n.contains('(') && !n.contains('|')).collect();
+    names.sort();
+    let mut opts = vec![];
+    for (lo, hi) in cands {
+        let after = toks(&text[hi..]);
+        for n in names.iter() {
+            if after.iter().any(|t| t == *n) {
+                opts.push((lo, hi, (*n).clone()));
+            }
+        }
+    }
+    if opts.is_empty() {
+        return None;
+    }
+    let (lo, hi, n) = opts[salt % opts.len()].clone();
+    Some(format!("{}(let (({n} {})) {n}){}", &text[..lo], &text[lo..hi], &text[hi..]))
+}
+
 struct EqJob {
     sh_idx: usize,
     what: &'static str,
@@ -197,6 +245,29 @@ fn round_trip_chunk(rep: &mut Report, chunk: &[Sh], base: usize) {
                             };
                             rep.violation(Role::new(SITE_EXPR, &op, &format!("let-variant-rejected;{class}")), format!("let-variant `{lt}` of the written term of {} is not read: {detail}", sh.show()),
                                 json!({"shape": sh.to_json(), "shape_text": sh.show(), "name_class": idx, "part": "let-variant", "text": lt}));
+                        }
+                    }
+                }
+            }
+            if idx % 3 == 1 {
+                if let Some(lt) = scoped_let_variant(&text, &st, idx) {
+                    rep.count("obligations", 1);
+                    rep.count("scoped_let_variants", 1);
+                    match crate::panics::guarded(|| parse_expr(&mut ctx, &st, lt.as_bytes())) {
+                        Ok(Ok(e3)) if e3 == e => {
+                            rep.count("identical_by_hash_consing", 1);
+                            rep.count("discharged", 1);
+                        }
+                        Ok(Ok(e3)) if e3.get_type(&ctx) == ty => jobs.push(EqJob { sh_idx: i, what: "scoped-let-variant", site: SITE_EXPR, text: lt.clone(), a: e, b: e3 }),
+                        other => {
+                            let (op, class) = class_of(&ctx, e);
+                            let detail = match other {
+                                Ok(Ok(_)) => "type differs".to_string(),
+                                Ok(Err(err)) => format!("error {err:?}"),
+                                Err((loc, msg)) => format!("panic at {loc}: {msg}"),
+                            };
+                            rep.violation(Role::new(SITE_EXPR, &op, &format!("scoped-let-variant-rejected;{class}")), format!("scoped let-variant `{lt}` of the written term of {} is not read: {detail}", sh.show()),
+                                json!({"shape": sh.to_json(), "shape_text": sh.show(), "name_class": idx, "part": "scoped-let-variant", "text": lt}));
                         }
                     }
                 }
